@@ -12,6 +12,25 @@ BASELINE_OFF = ("cd /repo && env -u MAPPYFILE_VERIF /venv/bin/python -m pytest -
 
 # id -> (technique, level text, level note, design ref)
 CHECKS = {
+    "C01": ("boundary-history relation over (parse, pprint, parse) events with an independent round-trip equivalence; "
+            "allowed differences decided by an independent schema reader",
+            "Vocabulary sweep of every (object, keyword, alternative) slot and enum member, the 451-file corpus and random "
+            "schema-generated documents under random surface renderings are loaded, written under both quote characters and "
+            "re-loaded. Held on the round trips observed; documented exclusions are counted, not judged.",
+            "Trusted: mf/vocab.py + mf/relations.py (allowed-difference rule), mf/gen.py/render.py (what a document means).",
+            "DESIGN.md 2 C01"),
+    "C02": ("expected-vs-observed relation: loads(render(IR)) against the dictionary the documented contract promises for the "
+            "generator's intended structure; icontract postcondition on MapfileToDict.transform; duplicate-key log records",
+            "Exhaustive vocabulary sweep x 4 positions plus random documents (depth <= 5) written by an independent renderer; "
+            "every key, type, order and nesting compared. Held on the documents observed.",
+            "Trusted: mf/expect.py as a restatement of docs/transformer.rst; mf/exprmodel.py for expression values.",
+            "DESIGN.md 2 C02"),
+    "C05": ("metamorphic relation over recorded parse events: all surface renderings of one intended structure, and a corpus "
+            "file and its whitespace/comment perturbations, must give identical dictionaries",
+            "8 random surfaces per generated document (keyword case, separators incl. FF/CRLF/comments, quote style, bare words, "
+            "layouts), vocabulary sweep in lower/random case, every corpus inter-token gap rewritten 4 ways. Held on what was observed.",
+            "Trusted: mf/render.py varies only what the property lists; corpus gaps located with mappyfile's own lexer (inputs only).",
+            "DESIGN.md 2 C05"),
     "C10": ("boundary relation: intended expression tree vs the string stored by the real parser, read back by an "
             "independent tokenizer + precedence parser; fixed-point and printed-unquoted relations on the same events",
             "All operator structures up to 3 (quick) / 4 (thorough) operators and random trees up to 12 operators, every "
